@@ -365,6 +365,16 @@ func runCheck(root string, args []string) int {
 			"10 seeded random histories x 14 blocks, 3 bonded validators with native stake, 3 users, two assets (one starts 5 minutes later), alliance and native (un)delegations, weight changes, jail/unjail; each block ends with the staking validator-set update and the real EndBlocker",
 			isKnown, &knownHit, &bounded, &violations, &vioLines)
 	}
+	// thorough tier: bounded stand-in for the compositions over blocks (C09, C14, C15)
+	if schFacts := map[string][]string{
+		"C09": {"deposit_not_charged_for_earlier_intervals", "staked_total_follows_compounding"},
+		"C14": {"weight_follows_the_decay_schedule"},
+		"C15": {"onward_hop_blocked_while_pending", "restriction_lifted_after_maturity", "pending_redelegation_removed_at_first_block_after_maturity"},
+	}[prop]; schFacts != nil && tier == "thorough" {
+		runBoundedSuite(root, vd, prop, seed, "schedule", "bounded/zz_bounded_schedule_test.go", "TestBoundedSchedule", schFacts,
+			"10 seeded histories x 18 blocks on an irregular schedule (gaps 0, 1 s, 1 min, 4 min 59 s, 7 min, 26 min, unbonding period + 1 s), take rates 1%/10%/50% per 5 minutes, decay 0.9 per 10 minutes in [0.5, 5], deposits and redelegations inside blocks, the real EndBlocker after every block",
+			isKnown, &knownHit, &bounded, &violations, &vioLines)
+	}
 	// thorough tier: bounded stand-in for the export/import composition (C18)
 	if prop == "C18" && tier == "thorough" {
 		runBoundedSuite(root, vd, prop, seed, "genesis", "bounded/zz_bounded_genesis_test.go", "TestBoundedGenesisRoundTrip",
